@@ -11,6 +11,7 @@ mod pool;
 mod props;
 mod util;
 mod tc;
+mod gensrc;
 
 use props::{Case, Tier};
 use serde_json::json;
@@ -37,6 +38,35 @@ fn main() {
             // the very code the user runs, for fresh-process checks (C19, exit status in C04/C16)
             let rest: Vec<String> = args[2..].to_vec();
             truth::cli_def::truth_main("verif", &rest);
+        },
+        "probe" => {
+            // development aid: how many generated sources compile, and why the others do not
+            let n: usize = args.get(2).and_then(|s| s.parse().ok()).unwrap_or(100);
+            let mut rng = rng::Rng::new(arg_value(&args, "--seed").and_then(|s| s.parse().ok()).unwrap_or(1));
+            let mut hist: BTreeMap<String, usize> = BTreeMap::new();
+            let show = arg_value(&args, "--show");
+            for _ in 0..n {
+                let g = gensrc::gen_any(&mut rng);
+                let out = tc::compile(g.format, g.game, &g.maps, g.text.as_bytes());
+                let key = format!("{} {} {}", g.format.name(), g.game, if out.value.is_some() { "ok".to_string() } else { util::diag_class(&out.diagnostics) });
+                if let Some(sh) = &show { if key.contains(sh.as_str()) { println!("=== {key}\n{}\n--- {}", g.text, out.diagnostics); } }
+                *hist.entry(key).or_default() += 1;
+            }
+            for (k, v) in hist { println!("{v:6} {k}"); }
+        },
+        "dbg" => {
+            let fmt = tc::Format::from_name(&args[2]);
+            let game = tc::game(&args[3]);
+            let text = std::fs::read(&args[4]).unwrap();
+            let out = tc::with_truth(fmt, game, &[], |truth| {
+                let script = truth.parse::<truth::ast::ScriptFile>("<input>", &text)?.value;
+                let compiled = tc::compile_ast(truth, fmt, game, &script)?;
+                let a = props::c03::canon_debug(&compiled, fmt, game);
+                let bytes = tc::write_bytes(truth, fmt, game, &compiled)?;
+                let back = tc::read_bytes(truth, fmt, game, &bytes)?;
+                Ok((a, props::c03::canon_debug(&back, fmt, game)))
+            });
+            match out.value { Some((a, b)) => println!("{a}\n=========\n{b}"), None => println!("{}", out.diagnostics) }
         },
         "run" => {
             let id = args.get(2).cloned().unwrap_or_else(|| usage());
